@@ -9,7 +9,10 @@ import (
 	"golang.org/x/tools/go/ssa"
 )
 
-func init() { registry["C15"] = checkC15 }
+func init() {
+	registry["C15"] = checkC15
+	needsWhole["C15"] = true
+}
 
 // ---- nil analysis ------------------------------------------------------------------------------------
 
@@ -488,6 +491,37 @@ func checkC15(c *Check) {
 	c15R4(c, fns)
 	c15R5(c, fns)
 	c15Getters(c)
+	if P.Whole {
+		c15DependencyGetters(c, fns)
+	}
+}
+
+// c15DependencyGetters (thorough tier, whole-program SSA): every generated getter of a dependency
+// (Envoy, genproto, well-known types) that the reachable own code calls starts with the nil-receiver
+// guard — the quick tier assumes this.
+func c15DependencyGetters(c *Check, fns []*ssa.Function) {
+	P := c.P
+	seen := map[*ssa.Function]bool{}
+	var bad []string
+	for _, fn := range fns {
+		for _, ci := range allCalls(fn) {
+			ce := calleeOf(ci)
+			if ce.Fn == nil || ce.Fn.Blocks == nil || isOwnPath(pkgPathOf(ce.Fn)) || !isGeneratedGetter(ce) || seen[ce.Fn] {
+				continue
+			}
+			seen[ce.Fn] = true
+			if _, isPtr := ce.Fn.Signature.Recv().Type().(*types.Pointer); !isPtr {
+				continue
+			}
+			if derefsParamUnguarded(P, ce.Fn, 0) {
+				bad = append(bad, fnKey(ce.Fn))
+			}
+		}
+	}
+	c.Obl(len(bad) == 0 && len(seen) >= 10, cr("R2"), "dependency-getters-nil-safe", "dependencies",
+		fmt.Sprintf("%d dependency getters called from Check-reachable code start with the nil-receiver guard", len(seen)),
+		fmt.Sprintf("dependency getters without nil-receiver guard: %v (of %d)", bad, len(seen)))
+	c.extra["dependency_getters_checked"] = len(seen)
 }
 
 func c15R1(c *Check, fns []*ssa.Function) {
